@@ -98,13 +98,15 @@ pub fn make_config(profile: &str, run_seed: u64, tier_thorough: bool) -> Config 
     let len = rng.geometric(4, max_len, if tier_thorough { 40 } else { 24 }) as u16;
     // One run in 400 works on a big world (and is short).
     let big = rng.chance(1, 400);
-    let len = if big { len.min(10) } else { len };
+    // One run in 300 starts from a world with very many archetype tables (and is short).
+    let many = !big && rng.chance(1, 300);
+    let len = if big || many { len.min(10) } else { len };
     Config {
         profile: profile.to_string(),
         nslots,
         len,
         weights: w,
-        batch_law: if big { 9 } else { rng.below(4) as u8 },
+        batch_law: if big { 9 } else if many { 8 } else { rng.below(4) as u8 },
         max_live_hint: *rng.pick(&[8u16, 30, 120, 400]),
     }
 }
@@ -280,7 +282,34 @@ pub fn gen_history(cfg: &Config, run_seed: u64) -> Vec<Op> {
         let site = (0..g::EXTEND_SITES.len()).filter(|s| (1..=3).contains(&g::EXTEND_SITES[*s].1.len())).nth(rng.usize_below(4)).unwrap_or(1);
         out.push(Op::Extend { slot: 0, how: 0, site: site as u16, n: rng.range(4097, 9000) as u16, extra: 0, seed: rng.next_u64() });
     }
-    while out.len() < cfg.len as usize {
+    let mut prefix = 0;
+    if cfg.batch_law == 8 && g::INSERT_SITES.len() > 70 {
+        // A crowded world: one entity of each of 66..=128 distinct shapes (the archetype table
+        // itself grows and rehashes; thresholds on the number of tables are crossed). With a
+        // second world, a sparse one is then copied over the crowded one.
+        let n = rng.range(66, 128.min(g::INSERT_SITES.len() as u64 - 1)) as usize;
+        let mut sites: Vec<u16> = (0..g::INSERT_SITES.len() as u16).collect();
+        for i in 0..n {
+            let j = i + rng.usize_below(sites.len() - i);
+            sites.swap(i, j);
+            out.push(Op::Insert { slot: 0, site: sites[i], seed: rng.next_u64() });
+        }
+        if cfg.nslots >= 2 && rng.chance(2, 3) {
+            let k = rng.range(1, 4);
+            for _ in 0..k {
+                out.push(Op::Insert { slot: 1, site: sites[rng.usize_below(8)], seed: rng.next_u64() });
+            }
+            if rng.chance(1, 2) {
+                out.push(Op::Remove { slot: 1, pick: pick_live(&mut rng) });
+            }
+            out.push(if rng.chance(1, 2) { Op::CloneFrom { src: 1, dst: 0 } } else { Op::CloneFrom { src: 0, dst: 1 } });
+            for _ in 0..rng.range(1, 4) {
+                out.push(Op::Insert { slot: 0, site: sites[rng.usize_below(n.min(8))], seed: rng.next_u64() });
+            }
+        }
+        prefix = out.len();
+    }
+    while out.len() < prefix + cfg.len as usize {
         let c = rng.weighted(&cfg.weights);
         gen_op(&mut rng, cfg, c, &mut out);
     }
